@@ -463,6 +463,8 @@ def validate(trace_module, cfg, event_lists, known_ids, tag, chunk_events=4000, 
 def load_known(prop):
     # (VERIF_KNOWN: development aid for trying a repair - an alternative list; evidence then goes to scratch)
     path = os.environ.get("VERIF_KNOWN") or os.path.join(ROOT, "known_findings.json")
+    if not prop.startswith("C"):          # extension domains (X01...) keep their findings apart
+        path = os.path.join(ROOT, "ext_findings.json")
     if not os.path.exists(path):
         return []
     with open(path) as f:
@@ -579,6 +581,11 @@ class Check:
         if (os.path.realpath(REPO) != "/repo" or os.environ.get("VERIF_DEBUG_SKIP_MC")
                 or os.environ.get("VERIF_NO_EVIDENCE") or os.environ.get("VERIF_KNOWN") or getattr(self, "is_replay", False)):
             edir = os.path.join(WORK, "evidence-scratch")
+            os.makedirs(edir, exist_ok=True)
+        elif not self.prop.startswith("C"):
+            # extension domains (X01...: behaviour beyond the twenty listed properties, DESIGN.md 10.7) keep their
+            # evidence apart from the per-property evidence files the manifest names
+            edir = os.path.join(ROOT, "evidence-ext")
             os.makedirs(edir, exist_ok=True)
         with open(os.path.join(edir, f"{self.prop}.json"), "w") as f:
             json.dump(ev, f, indent=1, ensure_ascii=True)
